@@ -441,8 +441,42 @@ func (e *Enc) assumeInvariant(fr *frame, li *loopInfo, st *bstate) {
 
 // ---------------------------------------------------------------------------
 
+// assertsAt checks the in-body assertions attached to the source line of instruction in.
+func (e *Enc) assertsAt(fr *frame, b *ssa.BasicBlock, idx int, in ssa.Instruction, st *bstate) {
+	if e.C == nil || len(e.C.AssertsAt) == 0 || fr.inlined || !in.Pos().IsValid() {
+		return
+	}
+	line := e.P.srcLine(in.Pos())
+	for _, a := range e.C.AssertsAt {
+		if !strings.Contains(line, a.Anchor) || e.assertDone[a] {
+			continue
+		}
+		e.assertDone[a] = true
+		env := e.newSpecEnv(fr, st)
+		env.block, env.idx = b, idx
+		f, err := env.formula(a.Clause.Expr)
+		if err != nil {
+			e.errors = append(e.errors, fmt.Sprintf("%s: assert_at: %v", a.Clause.Src, err))
+			continue
+		}
+		if a.Assume {
+			e.assume(st.reach, f)
+			e.externs[fnDisplay(e.fn)+" (explicit assumption at \""+a.Anchor+"\": "+a.Clause.Text+")"] = true
+			continue
+		}
+		o := e.oblige(st, "assert", e.anchor(in.Pos(), a.Anchor), f, in.Pos())
+		if o != nil {
+			o.Detail = a.Clause.Text
+		}
+	}
+}
+
 func (e *Enc) encodeBlock(fr *frame, b *ssa.BasicBlock, st *bstate) {
 	for idx, in := range b.Instrs {
+		switch in.(type) {
+		case *ssa.Return, *ssa.Call, *ssa.Store, *ssa.MapUpdate:
+			e.assertsAt(fr, b, idx, in, st)
+		}
 		switch x := in.(type) {
 		case *ssa.Phi, *ssa.DebugRef:
 			continue
